@@ -207,6 +207,48 @@ def body(run):
     if not okm:
         run.add_violation('compare JSON report differs from the API result', dict(files=[str(c0), str(c1)]),
                           observed=dict(exit=r.exit_code, json_keys=None if got is None else sorted(got)), signature=dict(kind='cli-json', tool='compare'))
+    # ---- several SOURCE files in one fuse invocation: every file gets the outputs the API call with the same settings gives for that file alone
+    #      (the command builds its dictionaries once and re-uses them for every file)
+    for trial, (dt, nd, with_pi) in enumerate([('int16', -32768, True), ('uint8', 255, True), ('uint16', 0, False)][:run.scale(2, 3)]):
+        g2, pair_a, mbm2, _nb = fz.workable_pair(run.work, rng, lambda r: synth.aligned_geom(r, 24), (3, 5), 1, tag=f'ma{trial}')
+        src_b = run.work / f'mb{trial}_src.tif'
+        synth.write_tif(src_b, (pair_a['src'][:, ::-1, :] * 0.5 + 20).astype('float32'), g2.src_transform, mask=pair_a['smask'][::-1, :])
+        srcs = [pair_a['src_fn'], src_b]
+        od = run.work / f'multifuse{trial}'
+        od.mkdir()
+        args = ['fuse', '-m', 'gain-offset', '-k', '3', '5', '-od', str(od), '-nbo', '--dtype', dt, '--nodata', str(nd)] + (['-pi'] if with_pi else []) + \
+            [str(p_) for p_ in srcs] + [str(pair_a['ref_fn'])]
+        r = CliRunner().invoke(hcli.cli, args)
+        run.count_case(('fuse-multi', trial), True, None)
+        desc = dict(args=[a if len(a) < 60 else '...' + a[-30:] for a in args], files=len(srcs))
+        if r.exit_code != 0:
+            run.add_violation('CLI fuse failed for a valid option combination', desc, observed=dict(exit_code=r.exit_code, output=r.output[-300:]), signature=dict(kind='cli-fails'))
+            continue
+        problems = {}
+        for fi, sfn in enumerate(srcs):
+            ad = run.work / f'multifuse_api{trial}_{fi}'
+            ad.mkdir()
+            with RasterFuse(sfn, pair_a['ref_fn']) as rf:
+                name = sfn.stem + utils.create_out_postfix(rf.proc_crs, model='gain-offset', kernel_shape=(3, 5), driver='GTiff')
+                api_corr = ad / name
+                api_param = utils.create_param_filename(api_corr) if with_pi else None
+                rf.process(api_corr, Model('gain-offset'), (3, 5), param_filename=api_param, build_ovw=False, out_profile=dict(driver='GTiff', dtype=dt, nodata=float(nd)))
+            cli_corr = od / name
+            if not cli_corr.exists():
+                problems[f'file {fi}: CLI output missing'] = sorted(p_.name for p_ in od.iterdir())
+                continue
+            a, b = fz.read_all(cli_corr), fz.read_all(api_corr)
+            if a['dtype'] != b['dtype'] or a['nodata'] != b['nodata']:
+                problems[f'file {fi}: dtype / nodata differ'] = [a['dtype'], a['nodata'], b['dtype'], b['nodata']]
+            elif not fz.same_arrays(a['array'], b['array']) or not np.array_equal(a['mask'], b['mask']):
+                problems[f'file {fi}: corrected pixels differ'] = fz.first_diff(a['array'], b['array'])
+            if with_pi:
+                pa, pb = fz.read_all(utils.create_param_filename(cli_corr)), fz.read_all(api_param)
+                if pa['dtype'] != pb['dtype'] or not fz.same_arrays(pa['array'], pb['array']):
+                    problems[f'file {fi}: parameter image differs'] = fz.first_diff(pa['array'], pb['array'])
+        if problems:
+            run.add_violation('CLI run differs from the API call with the same settings', desc, observed=problems,
+                              signature=dict(kind='cli-vs-api', parts=sorted(kk.split(': ')[1] for kk in problems)))
     # ---- flags that do not show in small outputs (overviews are only built for images of 512 px and more): what the command hands to process()
     seen = []
     orig_process = RasterFuse.process
